@@ -42,7 +42,7 @@ if [ -n "$TRS" ]; then
   L=$WT/.fv-lean
   rm -rf "$L"; mkdir -p "$L"; rsync -a /verif/lean/ "$L"/
   for t in $TRS; do
-    python3 /verif/translate/$t --repo "$WT" --out "$L/FontVerif/Gen" --report "$WT/.fv-tr-$t.json" >/dev/null 2>"$WT/.fv-tr-$t.err"; rc=$?
+    rc=0; python3 /verif/translate/$t --repo "$WT" --out "$L/FontVerif/Gen" --report "$WT/.fv-tr-$t.json" >/dev/null 2>"$WT/.fv-tr-$t.err" || rc=$?
     python3 - "$WT/.fv-tr-$t.json" "$t" $rc <<'PY'
 import json,sys,os
 p,t,rc=sys.argv[1],sys.argv[2],sys.argv[3]
